@@ -116,3 +116,27 @@ type EmbTag struct {
 	Uniq
 	Z int `json:"z"`
 }
+
+// Holder keeps, behind an interface, a value of one of its own member types: registering (or recomposing into) the
+// owner covers the struct types of its members, so a create key is enough to get them back. The member types (names
+// that exist nowhere else: a create key without the full type path names a type by its short name) sit at the first,
+// a middle and the last field index.
+type Holder struct {
+	First HFirst
+	Any   any
+	Mid   []HMid
+	Any2  any
+	Last  *HLast
+}
+
+type HFirst struct {
+	N int
+	S string
+}
+
+type HMid struct{ E string }
+
+type HLast struct {
+	X    float64
+	Name string
+}
